@@ -178,7 +178,7 @@ def run(ctx):
     ctx.sample({"flow": "B", "cfg": cfgs[0], "case": cases[1], "verdict": got[2]})
     ctx.assumptions += ["GC bounds are rationals whose float products order every integer count as the rational does "
                         "(checked per configuration; others are skipped, not judged)"]
-    return {"scope": {"MaxLen": 4 if ctx.quick else 6, "flowB_cfgs": len(cfgs), "flowB_cases": len(cases)}}
+    return {"scope": {"MaxLen": 4 if ctx.quick else 5, "flowB_cfgs": len(cfgs), "flowB_cases": len(cases)}}
 
 
 def replay(ctx, v):
